@@ -51,6 +51,8 @@ def conic(vc):
     vc.assume(vc.dot(p, p) > 0)
     vc.assume(vc.dot(b, b) > 0)
     cone = vc.real("cone", 0.0, 3.0)
+    if not vc.symbolic:
+        vc.assume(cone > 1e-6)  # (in floats the angle between a direction and itself is up to ~2e-8 rad, not 0: the native replay needs a cone wider than that)
     fov = vc.new(FOV + "ConicFoV", _cone_angle=cone)
     res = fov.inFieldOfView(p, b)
     ang = vc.arccos(_cosang(vc, b, p))
